@@ -87,9 +87,17 @@ def build(item, G):
   T = pval(item["T"], None)
   if item["type"] == "param":
     groups = [[(c[0], pval(c[1], None), pval(c[2], None), pval(c[3], None), c[4], c[5]) for c in g] for g in item["groups"]]
-    return mod, mod.ParamTop(T, groups)
-  c = item["cfg"]      # single leaf stand-alone, constructed with the SAME call shape
-  return mod, mod._mk((c[0], pval(c[1], None), pval(c[2], None), pval(c[3], None), c[4], c[5]), T)
+    top = mod.ParamTop(T, groups)
+    for a, g in enumerate(item["groups"]):
+      for j, c in enumerate(g):
+        if len(c) > 6 and c[6]:
+          top.set_param(f"top.mids[{a}].leafs[{j}].construct", **c[6])
+    return mod, top
+  c = item["cfg"]      # single leaf stand-alone, constructed with the SAME call shape (and the same set_param overrides)
+  top = mod._mk((c[0], pval(c[1], None), pval(c[2], None), pval(c[3], None), c[4], c[5]), T)
+  if len(c) > 6 and c[6]:
+    top.set_param("top.construct", **c[6])
+  return mod, top
 
 
 def main(argv):
